@@ -66,7 +66,7 @@ def allow_items(cfg):
 def gen_hostport(rng, host, allow_cfg):
     """A netloc chosen relative to the request's Host and the allow-list."""
     items = allow_items(allow_cfg)
-    k = rng.weighted([("same", 5), ("allowed", 3 if items else 0), ("evil", 4), ("near", 3), ("weird", 2)])
+    k = rng.weighted([("same", 5), ("allowed", 4 if items else 0), ("evil", 4), ("near", 4), ("weird", 3)])
     if k == "same" and host:
         h = host
     elif k == "allowed" and items:
@@ -88,8 +88,8 @@ def gen_hostport(rng, host, allow_cfg):
 
 def gen_origin(rng, host, allow_cfg, wire=True):
     """Return an Origin value (str) or None (header absent)."""
-    k = rng.weighted([("absent", 2), ("empty", 1), ("null", 1.5), ("scheme_only", 2), ("url", 14),
-                      ("noscheme", 2), ("badscheme", 1.5), ("junk", 1.5)])
+    k = rng.weighted([("absent", 2), ("empty", 1), ("null", 1.2), ("scheme_only", 1.5), ("url", 22),
+                      ("noscheme", 1.5), ("badscheme", 1.2), ("junk", 1.5)])
     if k == "absent":
         return None
     if k == "empty":
@@ -108,7 +108,7 @@ def gen_origin(rng, host, allow_cfg, wire=True):
     if k == "junk":
         alphabet = "ah:/?#@[].\\ \t%,;" + LATIN + ("" if wire else "\x00\x01\n\r\x0b\x1f\x7f")
         return "".join(rng.choice(alphabet) for _ in range(rng.randint(1, 14)))
-    o = rng.choice(SCHEMES) + rng.choice(["://"] * 8 + [":/", ":", ":///", "://" + "/"]) + hp
+    o = rng.choice(SCHEMES) + rng.choice(["://"] * 14 + [":/", ":", ":///", "://" + "/"]) + hp
     o += rng.weighted([("", 10), ("/", 2), ("/path", 1), ("?q=1", 1), ("#frag", 1), ("/?#", 0.5),
                        (" ", 0.5), ("\t/", 0.5), (";p", 0.5)])
     if rng.random() < 0.08:
@@ -335,9 +335,11 @@ def py_monitors(case, obs):
     st, core, granted = obs["status"], obs["core"], (obs["acao"] is not None or obs["acah"])
     if st is None:
         return [("T4_refused_is_inert", "no response")] if core else []
-    if st >= 400 and (core or granted or obs.get("registered") or obs.get("extra")):
+    # (the Mopidy/JSON headers of set_extra_headers are compared with the model but are not
+    # part of the property: a refusal carrying them is a broken tie, not a violation)
+    if st >= 400 and (core or granted or obs.get("registered")):
         bad.append(("T4_refused_is_inert", f"status {st} but core={core} cors={granted} "
-                                           f"ws-registered={obs.get('registered')} handler-headers={obs.get('extra')}"))
+                                           f"ws-registered={obs.get('registered')}"))
     if seen is None or st == 400:
         return bad
     origin, host, ctype, wso = seen["Origin"], seen["Host"], seen["Content-Type"], seen["Sec-Websocket-Origin"]
@@ -577,6 +579,13 @@ def http_stage(chk, cases):
         o = seen["Origin"] if seen["Origin"] is not None else (seen["Sec-Websocket-Origin"] if case["kind"] == "ws" else None)
         oc = origin_class(o)
         chk.dist(f"http:origin:{oc}")
+        if case["csrf"] and o is not None and case["kind"] in ("options", "ws") and obs["status"] < 400:
+            n = urllib.parse.urlsplit(o).netloc.lower()
+            allow_now = SERVERS.get(case["csrf"], case["allow_cfg"]).config["http"]["allowed_origins"]
+            chk.dist("http:accepted-because:" + ("empty-netloc" if not n else "allow-list" if n in allow_now else
+                                                  "host" if n == seen["Host"] else "?"))
+        if case["csrf"] and case["kind"] == "post" and obs["status"] == 200:
+            chk.dist("http:post-executed:" + ("cors-echo" if seen["Origin"] is not None else "no-origin"))
         nontrivial = case["csrf"] and (oc not in ("absent",) or case["kind"] == "post")
         chk.count(1, nontrivial_key=(case["kind"], case["allow_cfg"], o, seen["Host"], seen["Content-Type"], case["body"])
                   if nontrivial else None)
